@@ -13,16 +13,18 @@
     early-termination predicate and every prefix of the run.
 
     Clause 2 (the *true* regret of the returned profile obeys
-    [6 * D * N * (sqrt A + 1 / sqrt T) / sqrt T]) follows for vanilla parameters from
-    clause 1 and C02 (the returned bound dominates the true regret): see
-    [Properties/C02.v], theorem [C02_true_regret_rate_vanilla], and is proved here for
-    the LCFR preset ([C03_true_regret_rate_lcfr], proofs in [theories/LcfrSpec.v],
-    [theories/LcfrBound.v]).  For cfr_plus, dcfr and dcfr_prune it is NOT proved: that is
-    Brown–Sandholm 2019 Thm 3 / Tammelin et al.; the statement is kept below as
-    [C03_true_regret_rate_presets_statement] and is decided by the monitor of the check. *)
+    [6 * D * N * (sqrt A + 1 / sqrt T) / sqrt T]) is proved for **every documented preset**:
+    vanilla ([Properties/C02.v], [C02_true_regret_rate_vanilla]), lcfr
+    ([C03_true_regret_rate_lcfr]: regrets and average carry the same weights t) and
+    cfr_plus, dcfr, dcfr_prune ([C03_true_regret_rate_presets]: summation by parts over the
+    discounted regrets, lower bounds on the discounted cumulative regrets, weighted
+    decomposition and average realisation — [theories/DiscountedSpec.v],
+    [theories/DiscountedBound.v]), for every early-termination predicate.  Side results: for
+    lcfr only [b1 + b2] (not [max b1 b2]) dominates the true regret (witness); for cfr_plus
+    [3/2 * (b1 + b2)] does. *)
 From Coq Require Import Reals List Bool NArith.
 From Cfr.theories Require Import Num RInst Tree GameWF Valid Strat Eval Solve SolveValidProofs LoopProofs Incr
-     IterChar RmPotential CfMass CfrRate LcfrBound.
+     IterChar RmPotential CfMass CfrRate LcfrBound DiscountedBound.
 Import ListNotations.
 Open Scope R_scope.
 
@@ -125,8 +127,11 @@ Theorem C03_lcfr_max_bound_refuted :
     @si_regret RNum (@info RNum g strats) <= b1 + b2.
 Proof. exact lcfr_max_bound_refuted. Qed.
 
-(** NOT PROVED (kept visible, unused): the true-regret rate for the three presets whose
-    regret discount and averaging weights differ (cfr_plus, dcfr, dcfr_prune). *)
+(** 5. clause 2 for the three presets whose regret discount and averaging weights differ
+       (cfr_plus, dcfr, dcfr_prune): summation by parts over the discounted regrets
+       ([abel_weighted]), lower bounds on the discounted cumulative regrets, the weighted
+       decomposition and average realisation ([theories/DiscountedSpec.v],
+       [theories/DiscountedBound.v]); every stop predicate *)
 Definition C03_true_regret_rate_presets_statement : Prop :=
   forall (g : @game RNum) draw (p : @params RNum) (lo hi : R) (A : nat) budget strats b1 b2 ran,
     In p [@p_cfr_plus RNum; @p_dcfr RNum; @p_dcfr_prune RNum] ->
@@ -136,6 +141,17 @@ Definition C03_true_regret_rate_presets_statement : Prop :=
     let T := INR (N.to_nat ran) in
     @si_regret RNum (@info RNum g strats) <=
     6 * (hi - lo) * INR (num_infosets g) * (sqrt (INR A) + 1 / sqrt T) / sqrt T.
+
+Theorem C03_true_regret_rate_presets : C03_true_regret_rate_presets_statement.
+Proof. exact C03_true_regret_rate_presets_proved. Qed.
+
+(** how far the returned bounds are from the true regret for these presets *)
+Theorem C03_cfr_plus_bound_dominates :
+  forall (g : @game RNum) draw budget (stop : R -> bool) strats b1 b2 ran,
+    WFgame g -> PerfectRecall g -> ChanceOK g ->
+    @solve_single RNum g Full draw (@p_cfr_plus RNum) budget stop = (strats, Some (b1, b2), ran) ->
+    @si_regret RNum (@info RNum g strats) <= 3 / 2 * (b1 + b2) /\ 0 <= b1 /\ 0 <= b2.
+Proof. intros g draw budget stop strats b1 b2 ran H1 H2 H3 E. exact (cfr_plus_bound_dominates g H1 draw budget stop strats b1 b2 ran H2 H3 E). Qed.
 
 (** Non-vacuity: matching pennies (D = 2, one infoset per player, two actions). *)
 Example C03_example :
@@ -156,4 +172,6 @@ Print Assumptions C03_bound_at_rate.
 Print Assumptions C03_true_regret_rate_lcfr.
 Print Assumptions C03_lcfr_bound_dominates_sum.
 Print Assumptions C03_lcfr_max_bound_refuted.
+Print Assumptions C03_true_regret_rate_presets.
+Print Assumptions C03_cfr_plus_bound_dominates.
 Print Assumptions C03_example.
